@@ -234,6 +234,8 @@ func execC08(t *testing.T, sc *kernel.Scenario, trace bool) *kernel.Result {
 				}
 				p.nextAccKey, p.nextPropNonce = fmt.Sprintf("an:f%d", i), fmt.Sprintf("pn:f%d", i)
 				before := len(p.chans)
+				known := func() int { return len(p.n[0].ChansSnapshot()) + len(p.n[1].ChansSnapshot()) }
+				knownBefore := known()
 				k := p.openWith(i, side, st, accKey)
 				p.w.Bus.FailSend = nil
 				faulted++
@@ -242,6 +244,26 @@ func execC08(t *testing.T, sc *kernel.Scenario, trace bool) *kernel.Result {
 				}
 				if k >= 0 && len(p.chans) > before {
 					opens = append(opens, openRec{id: p.ids[k], pn: -int64(i), an: -int64(i), sideProposer: side, alloc: p.lastAlloc})
+				} else if kernel.Derive(uint64(st.Int("r")), "retry-same-proposal")%2 == 0 {
+					// the opening failed. Once both sides have given up for good
+					// (every context of the attempt has ended) and neither holds a
+					// channel, the user tries again with the very same proposal and
+					// the very same nonce shares - the same channel ID. Nothing of
+					// the failed attempt may stand in its way.
+					time.Sleep(p.n[0].CtxTimeout + p.n[1].CtxTimeout + 10*time.Second)
+					if known() == knownBefore {
+						p.nextAccKey, p.nextPropNonce = fmt.Sprintf("an:f%d", i), fmt.Sprintf("pn:f%d", i)
+						s.Count("fault.same_proposal_again_after_failed_opening", 1)
+						if side == 0 {
+							honestToH++
+						}
+						if k2 := p.openWith(i, side, st, accKey); k2 >= 0 && len(p.chans) > before {
+							opens = append(opens, openRec{id: p.ids[k2], pn: -int64(i), an: -int64(i), sideProposer: side, alloc: p.lastAlloc})
+							checkOpened(p, k2, side, p.lastAlloc, p.lastData, st)
+						} else if e := p.lastOpenErr; e != nil {
+							s.Fail("C08.honest-opening-failed@same-proposal-again", "an opening failed on a connection fault and left no channel on either side; the same proposal with the same nonce shares, made again after every context of the first attempt had ended, failed: %v", e)
+						}
+					}
 				}
 			case "sub-open":
 				if len(p.chans) > 0 && st.Int("over") == 1 {
